@@ -41,6 +41,18 @@ CHECKS = {
         "state rule, exception propagation, dropped queue and usability are checked on every path.",
         "DESIGN.md section 4 C04",
     ),
+    "C07": sx(
+        "every bounded signature x call shape bound on symbolic argument objects and compared, by identity, with a reference binding",
+        "All legal signatures up to the stated size and all call shapes are bound through the real adapter (and end-to-end through send) with "
+        "symbolic argument values; a path covers all values, the tree of signatures is exhausted.",
+        "DESIGN.md section 4 C07",
+    ),
+    "C08": sx(
+        "differential against Python's own eval() over the generated expression grammar with symbolic operand values",
+        "Every expression of the bounded grammar in every spelling is parsed by the real parser under the tracer and evaluated for all operand "
+        "values (symbolic); value and read order must equal Python's; invalid strings must be rejected at instantiation.",
+        "DESIGN.md section 4 C08",
+    ),
     "C14": sx(
         "result rule judged on symbolic return values incl. awkward kinds",
         "All bounded populations of before/on callbacks x transition kinds x engines with symbolic return values; 0->None, 1->unwrapped, else list.",
